@@ -136,6 +136,33 @@ type state struct {
 	specKeys map[string]*xmssKey
 	// mutated[i] is set when a call changed one of its input buffers (C14)
 	mutations []string
+	// results the library handed out (the very slices, not copies) with their contents at that moment: a later call
+	// must not change what an earlier call returned
+	held []heldResult
+}
+
+type heldResult struct {
+	op   string
+	buf  []byte
+	snap []byte
+}
+
+// hold keeps the slice a call returned (at most 3000 of them) so that it can be compared with its contents at return
+// time once the run is over.
+func (st *state) hold(op string, b []byte) {
+	if len(st.held) < 3000 && len(b) > 0 {
+		st.held = append(st.held, heldResult{trunc(op, 200), b, append([]byte{}, b...)})
+	}
+}
+
+// changedLater lists the held results whose contents are no longer what the library returned.
+func (st *state) changedLater() (r []string) {
+	for _, h := range st.held {
+		if !bytes.Equal(h.buf, h.snap) {
+			r = append(r, h.op)
+		}
+	}
+	return
 }
 
 func newState() *state {
@@ -260,6 +287,7 @@ func execOp(st *state, line string) string {
 			if err != nil {
 				return "fault:error " + err.Error()
 			}
+			st.hold(line, sig)
 			return "ok " + hx(sig)
 		case f[0] == "x.setidx" && len(f) == 3:
 			x := st.xkeys[f[1]]
@@ -483,6 +511,20 @@ func execOp(st *state, line string) string {
 				return "fault:error " + err.Error()
 			}
 			return "ok " + hx(sig[:])
+		case f[0] == "dl.seal" && len(f) == 3:
+			d := st.dkeys[f[1]]
+			if d == nil {
+				return "bad-op"
+			}
+			m := unhex(f[2])
+			m0 := append([]byte{}, m...)
+			sm, err := d.Seal(m)
+			st.unchanged(line, m0, m)
+			if err != nil {
+				return "fault:error " + err.Error()
+			}
+			st.hold(line, sm)
+			return "ok " + hx(sm)
 		case f[0] == "dl.signsk" && len(f) == 3:
 			sk, _ := sized4864(unhex(f[1]))
 			sm, err := dilithium.VerifSignWithSK(unhex(f[2]), &sk)
